@@ -5,7 +5,8 @@
                 rationals n/d (both hex); entries with value 0 are allowed (the map constructor
                 drops them)
            ops  add P P | sub P P | neg P | mul P P | kmul P P (I) | gmul P P | pow P n
-                | div P P | eval P x | diff P | coeff P k | deg P | lc P | vec c,c,.. | fits P P (I)
+                | div P P | eval P x | diff P | coeff P k | deg P | lc P | vec c,c,..
+                | fits P P (I) | powfits P n | divfits P P   (hypotheses of the theorems; model only)
    output: one canonical line per case *)
 open Poly_model
 
@@ -130,6 +131,8 @@ let run_int (op : string) (args : string list) : string =
   | "lc", [a] -> hex_of_z (zlc (p a))
   | "vec", [v] -> sp (zfrom_vec (if v = "-" then [] else List.map z_of_hex (String.split_on_char ',' v)))
   | "fits", [a; b] -> if fits_u32 (p a) (p b) then "1" else "0"
+  | "powfits", [a; n] -> if zpow_fits (p a) (n_of_int (int_of_string n)) then "1" else "0"
+  | "divfits", [a; b] -> if zdivides_fits (p a) (p b) then "1" else "0"
   | _ -> "BADOP"
 
 let run_rat (op : string) (args : string list) : string =
@@ -149,6 +152,8 @@ let run_rat (op : string) (args : string list) : string =
   | "deg", [a] -> dec_of_n (degree (p a))
   | "lc", [a] -> string_of_q (qlc (p a))
   | "vec", [v] -> sp (qfrom_vec (if v = "-" then [] else List.map q_of_string (String.split_on_char ',' v)))
+  | "powfits", [a; n] -> if qpow_fits (p a) (n_of_int (int_of_string n)) then "1" else "0"
+  | "divfits", [a; b] -> if qdivides_fits (p a) (p b) then "1" else "0"
   | _ -> "BADOP"
 
 let () =
